@@ -2,7 +2,7 @@
 From Coq Require Import List NArith Bool Arith.
 Import ListNotations.
 From SV Require Import Utf8 Escape EscapeProofs ExpGrammar ExpGrammarProofs Rules LineParser Generate GenerateProofs
-                       Diff Det DiffProofs DetProofs Regen.
+                       Diff Det DiffProofs DetProofs DetExtra Regen.
 Local Open Scope N_scope.
 
 (* [expectation_line m line] is the text create/update write for one line of output; out_line content line: the line is
@@ -36,6 +36,27 @@ Proof.
   apply (proj2 (C03_complete_when_deterministic line _ ls Hdet)). apply (regen_described line leqb H es ls d Hd).
 Qed.
 
+(* composed over a whole output: the expectation lines `scrut create` writes for the lines of an output parse back to
+   a list of unquantified expectations that the matcher accepts on that very output (C09_line_round_trip per line, then
+   C03_own_lines_pass) -- any number of lines, both escaping modes *)
+Theorem C09_generated_expectations_pass : forall rp rc gn m (contents ls : list (list N)),
+  Forall2 out_line contents ls ->
+  Forall (fun content => has_unprintable m content = true -> strip_suffix S_NOEOL (escaped_printable m content) = None) contents ->
+  exists rs, Forall2 (fun l r => parse rp rc gn (expectation_line m l) = POk (mkE r false false)) ls rs
+             /\ accepts (list N) (map (fun r => mkExp (list N) false false (rule_matches r)) rs) ls = true.
+Proof.
+  intros rp rc gn m contents ls H2 Hk.
+  assert (E: exists rs, Forall2 (fun l r => parse rp rc gn (expectation_line m l) = POk (mkE r false false)) ls rs
+                        /\ Forall2 (fun e l => mt (list N) e l = true) (map (fun r => mkExp (list N) false false (rule_matches r)) rs) ls).
+  { induction H2 as [|content l contents ls Hl H2 IH]; [exists []; split; constructor|].
+    inversion Hk as [|x y Hk1 Hk2]; subst.
+    destruct (C09_line_round_trip rp rc gn m content l Hl Hk1) as [r [Hp Hm]].
+    destruct (IH Hk2) as [rs [F1 F2]]. exists (r :: rs). split; constructor; assumption. }
+  destruct E as [rs [F1 F2]]. exists rs. split; [exact F1|].
+  apply own_lines_pass; [|exact F2].
+  apply Forall_forall. intros e He. apply in_map_iff in He. destruct He as [r [<- _]]. split; reflexivity.
+Qed.
+
 (* the determinism premise is needed -- the listed known finding: a kept optional-multiline expectation followed by an
    overlapping one.  lines 1 2; expectations  1(optional multiline), 9, any-single-line *)
 Example C09_regen_greedy_refuted :
@@ -64,3 +85,4 @@ Print Assumptions C09_line_round_trip.
 Print Assumptions C09_line_not_exit_code.
 Print Assumptions C09_regen_described.
 Print Assumptions C09_regen_accepts_when_deterministic.
+Print Assumptions C09_generated_expectations_pass.
